@@ -289,8 +289,11 @@ def harness_run(binary, family, case_files, out, params, n_cases, timeout_ms=500
             f.write(json.dumps({"ev": kind, "case": failed, "rc": p.returncode if abs(p.returncode) < 1000 else 999}) + "\n")
         skip = failed + 1
         restarts += 1
-        if restarts > 200:
-            raise ToolError("harness keeps dying (%d restarts)" % restarts)
+        if restarts >= 40:
+            # the code under test kills the worker case after case: every death already is a rejected observation
+            # (abort / timeout are never acceptable outcomes), the remaining cases of the stage add nothing
+            log("  harness died %d times in this stage: remaining cases not run" % restarts)
+            break
         if skip >= n_cases:
             break
     return restarts
